@@ -17,6 +17,7 @@ From Coq Require Import List NArith ZArith Bool.
 Require Import GV.Base.Res GV.Spec.Graph GV.Model.Filter GV.Spec.FilterSpec.
 Require Import GV.Proofs.FilterProofs GV.Proofs.FilterEdges GV.Proofs.FilterConv GV.Proofs.FilterParents.
 Require Import GV.Proofs.FilterTol.
+Require Import GV.Base.Ints GV.Model.FilterAttrs GV.Proofs.FilterBounds GV.Proofs.FilterAttrsProofs.
 Import ListNotations.
 Local Open Scope N_scope.
 
@@ -281,6 +282,147 @@ Example carriers_ex :
   filter_refs u_ex {| s_car := CExpr 0 OpConvert; s_val := 0 |} = [].
 Proof. repeat split. Qed.
 
+(* ------------------------------------------------------------------------------------------ *)
+(* (6) Same attributes, no dangling id (Model/FilterAttrs.v).  A DIE is now its full attribute list
+   (name, body, reference sites); `entry_of` is what FilterUnit::read_entry sees of it after
+   FilterUnit::filter_attributes.  For every attribute forest, every required predicate and both build modes:
+   the map entry_ids built by ConvertUnitSection::new_with_filter has as keys exactly the unit roots and the
+   reserved DIEs; for every reserved DIE e, ConvertUnitEntry::filter_attributes + ConvertUnit::convert_attributes
+   give under the filter's entry_ids and under the entry_ids of the unfiltered conversion (Dwarf::from) the same
+   result once each (UnitId, UnitEntryId) is read back as the source DIE it was reserved for: the same
+   attributes in the same order (DW_AT_sibling and the metadata attributes dropped, DW_AT_GNU_locviews skipped),
+   the same bodies, references to the same source DIEs - or the same ConvertError.  No hypothesis that any
+   conversion succeeds, so the statement also covers the attribute-by-attribute tolerant loop.
+   And every id stored in a converted attribute stands for a unit root or a reserved DIE, i.e. (no_dangling /
+   tolerant_emits_reserved) for a DIE that is emitted: nothing dangles in the written output. *)
+Theorem same_attributes : forall (dbg : bool) (req : N -> bool) (aunits : list aunit),
+  wf_offsets (map unit_of aunits) -> wf_layout (map unit_of aunits) ->
+  exists S mF,
+    reserved filter_refs dbg req (map unit_of aunits) = Ok S /\
+    ids_filtered dbg req (map unit_of aunits) = Ok mF /\
+    (forall x, In x (map fst mF) <-> is_root (map unit_of aunits) x \/ In x S) /\
+    (forall au e, In au aunits -> In e (aunit_entries au) -> In (sec (unit_of au) (ae_off e)) S ->
+       decode_attrs mF (cv_entry_attrs (unit_of au) mF e) =
+       decode_attrs (ids_all (map unit_of aunits)) (cv_entry_attrs (unit_of au) (ids_all (map unit_of aunits)) e)) /\
+    (forall au e out a id, cv_entry_attrs (unit_of au) mF e = Ok out -> In a out -> In id (ca_refs a) ->
+       exists y, im_src id mF = Some y /\ (is_root (map unit_of aunits) y \/ In y S)).
+Proof. exact same_attributes_full. Qed.
+
+(* the two halves under their DESIGN names *)
+Theorem no_dangling_written : forall (dbg : bool) (req : N -> bool) (aunits : list aunit),
+  wf_offsets (map unit_of aunits) -> wf_layout (map unit_of aunits) ->
+  exists S mF,
+    reserved filter_refs dbg req (map unit_of aunits) = Ok S /\
+    ids_filtered dbg req (map unit_of aunits) = Ok mF /\
+    forall au e out a id, cv_entry_attrs (unit_of au) mF e = Ok out -> In a out -> In id (ca_refs a) ->
+      exists y, im_src id mF = Some y /\ (is_root (map unit_of aunits) y \/ In y S).
+Proof. exact no_dangling_written_full. Qed.
+
+(* a struct e1 (member e2) referenced by the required variable e4; e3 is dropped, so e4 gets another id than
+   in the unfiltered conversion; its DW_AT_sibling (pointing at e3!) and DW_AT_GNU_addr_base are dropped, the
+   DW_AT_type reference is kept and denotes the same source DIE *)
+Definition exa_e1 : aentry := {| ae_off := 21; ae_tag := 19; ae_attrs := [ {| at_name := 11; at_body := 4; at_sites := [] |} ] |}.
+Definition exa_e2 : aentry := {| ae_off := 31; ae_tag := 13; ae_attrs := [] |}.
+Definition exa_e3 : aentry := {| ae_off := 41; ae_tag := 36; ae_attrs := [] |}.
+Definition exa_e4 : aentry :=
+  {| ae_off := 51; ae_tag := 52;
+     ae_attrs := [ {| at_name := 1; at_body := 0; at_sites := [ {| s_car := CAttrUnit; s_val := 41 |} ] |};
+                   {| at_name := 73; at_body := 0; at_sites := [ {| s_car := CAttrUnit; s_val := 21 |} ] |};
+                   {| at_name := 8499; at_body := 0; at_sites := [ {| s_car := CAttrUnit; s_val := 41 |} ] |} ] |}.
+Definition exa_units : list aunit :=
+  [ {| au_off := 0; au_hdr := 11; au_len := 60;
+       au_kids := [ ANode exa_e1 [ ANode exa_e2 [] ]; ANode exa_e3 []; ANode exa_e4 [] ] |} ].
+Definition exa_req (x : N) : bool := x =? 51.
+Definition exa_u : unitd := unit_of {| au_off := 0; au_hdr := 11; au_len := 60; au_kids := [] |}.
+
+Example exa_wf : wf_offsets (map unit_of exa_units) /\ wf_layout (map unit_of exa_units).
+Proof.
+  split.
+  - unfold wf_offsets. cbn. repeat constructor; cbn; intuition discriminate.
+  - split; [cbn; intuition|].
+    intros u e par [[<-|[]] Hin]. cbn in Hin.
+    repeat (destruct Hin as [H|Hin]; [inversion H; subst; cbn; split; reflexivity|]). destruct Hin.
+Qed.
+
+Example same_attributes_ex :
+  reserved filter_refs true exa_req (map unit_of exa_units) = Ok [21; 31; 51] /\
+  ids_filtered true exa_req (map unit_of exa_units) = Ok [(11, (0, 0)); (21, (0, 1)); (31, (0, 2)); (51, (0, 3))] /\
+  ids_all (map unit_of exa_units) = [(11, (0, 0)); (21, (0, 1)); (31, (0, 2)); (41, (0, 3)); (51, (0, 4))] /\
+  cv_entry_attrs exa_u [(11, (0, 0)); (21, (0, 1)); (31, (0, 2)); (51, (0, 3))] exa_e4
+    = Ok [ {| ca_name := 73; ca_body := 0; ca_refs := [(0, 1)] |} ] /\
+  fst (cu_filter_attributes (ae_attrs exa_e4)) = true.
+Proof. repeat split; vm_compute; reflexivity. Qed.
+
+(* ------------------------------------------------------------------------------------------ *)
+(* (7) The bounds rule as coded.  FilterUnit::add_attribute_refs / add_expression_refs test
+   UnitOffset::is_in_bounds and then add with the UNCHECKED usize `+` of UnitOffset::to_unit_section_offset.
+   For every unit that ends inside a 2^64-byte section, every list of reference sites and both build modes the
+   code neither panics nor wraps and records exactly the targets `filter_refs` that the graph theorems are
+   about. *)
+Theorem bounds_rule_exact : forall (dbg : bool) (u : unitd) (ss : list site) (deps : list N),
+  unit_end u <= 2 ^ 64 ->
+  push_sites_refs dbg u ss deps = Ok (deps ++ flat_map (filter_refs u) ss).
+Proof. exact push_sites_refs_exact. Qed.
+
+(* An out-of-bounds unit-relative operand records nothing: for every unit (no layout hypothesis), every value
+   - in particular one that equals "offset of a DIE of a later unit minus the start of this unit" - in both
+   build modes. *)
+Theorem oob_ref_no_edge : forall (dbg : bool) (u : unitd) (s : site) (deps : list N),
+  site_unit_relative s = true -> in_bounds u (s_val s) = false ->
+  push_site_refs dbg u s deps = Ok deps /\ filter_refs u s = [].
+Proof. exact push_oob_nothing. Qed.
+
+(* No unit-relative site ever names a DIE of another unit. *)
+Theorem unit_relative_stays_home : forall units u u' e' par' s,
+  wf_layout units -> In u units -> occurs units u' e' par' ->
+  site_unit_relative s = true -> In (sec u' (e_off e')) (filter_refs u s) -> u' = u.
+Proof. exact unit_relative_stays_home_full. Qed.
+
+(* Minimality survives numeric coincidences.  `own_refs` reads a unit-relative reference without any byte
+   arithmetic: it denotes the DIE of ITS OWN unit that starts at that unit offset, if there is one, and nothing
+   otherwise.  On every well laid out forest the filter reserves exactly the set that reading reserves, which
+   by closure_any_policy is the least set closed under parents, those references and member-like children: an
+   out-of-bounds unit-relative reference whose value coincides with a DIE of a later unit retains nothing. *)
+Theorem oob_refs_add_nothing : forall (dbg : bool) (req : N -> bool) (units : list unitd),
+  wf_offsets units -> wf_layout units ->
+  reserved filter_refs dbg req units = reserved own_refs dbg req units.
+Proof. exact oob_refs_add_nothing_full. Qed.
+
+(* the forest of oob_ex: the variable of unit 0 has DW_AT_type = 121, the unit offset at which a typedef of
+   unit 1 happens to live in the section *)
+Example oob_refs_ex :
+  unit_end ex3_u0 <= 2 ^ 64 /\
+  push_sites_refs true ex3_u0 (e_sites ex3_var) [] = Ok [] /\
+  own_refs ex3_u0 {| s_car := CAttrUnit; s_val := 121 |} = [] /\
+  reserved filter_refs true (fun x => x =? 21) ex3_units = Ok [21] /\
+  reserved own_refs true (fun x => x =? 21) ex3_units = Ok [21].
+Proof. repeat split; vm_compute; try reflexivity; discriminate. Qed.
+
+Example ex3_wf : wf_offsets ex3_units /\ wf_layout ex3_units.
+Proof.
+  split.
+  - unfold wf_offsets. cbn. repeat constructor; cbn; intuition discriminate.
+  - split; [cbn; intuition; subst; cbn; discriminate|].
+    intros u e par [[<-|[<-|[]]] Hin]; cbn in Hin;
+      repeat (destruct Hin as [H|Hin]; [inversion H; subst; cbn; split; reflexivity|]); destruct Hin.
+Qed.
+
+(* ------------------------------------------------------------------------------------------ *)
+(* (8) Split DWARF.  FilterUnitSection::new_split builds the dependency map with the same FilterUnit::read_entry;
+   ConvertSplitUnitSection::new_with_filter reserves ALL reachable offsets for the first unit of the .dwo
+   section instead of slicing them per unit.  When the .dwo section holds one unit (the DWARF 5 / GNU split
+   layout) the DIEs emitted are those of the ordinary path, so every theorem above applies to it.  NOT modelled:
+   a .dwo section with several units, the skeleton's own attributes / line program / copy_relocated_attributes. *)
+Theorem split_single_unit : forall rf (dbg : bool) (req : N -> bool) (u : unitd),
+  wf_offsets [u] -> wf_layout [u] ->
+  convert_split_filtered rf dbg req [u] = convert_filtered rf dbg req [u].
+Proof. exact split_single_unit_full. Qed.
+
+Example split_ex :
+  convert_split_filtered filter_refs true (fun x => x =? 151) ex_forest
+  = Ok [(121, 111); (131, 121); (141, 131); (151, 111)].
+Proof. vm_compute. reflexivity. Qed.
+
 (* pins *)
 Check worklist_correct : forall d : deps,
   exists l, get_reachable d = Ok l /\ strict_sorted l /\
@@ -292,3 +434,23 @@ Check closure : forall (dbg : bool) (req : N -> bool) (units : list unitd),
     (forall x, In x S -> f_valid units x) /\
     (forall T : N -> Prop, dependency_closed filter_refs req units T -> forall x, In x S -> T x).
 Check edges_complete : forall (u : unitd) (s : site), incl (conv_refs u s) (filter_refs u s).
+Check same_attributes : forall (dbg : bool) (req : N -> bool) (aunits : list aunit),
+  wf_offsets (map unit_of aunits) -> wf_layout (map unit_of aunits) ->
+  exists S mF,
+    reserved filter_refs dbg req (map unit_of aunits) = Ok S /\
+    ids_filtered dbg req (map unit_of aunits) = Ok mF /\
+    (forall x, In x (map fst mF) <-> is_root (map unit_of aunits) x \/ In x S) /\
+    (forall au e, In au aunits -> In e (aunit_entries au) -> In (sec (unit_of au) (ae_off e)) S ->
+       decode_attrs mF (cv_entry_attrs (unit_of au) mF e) =
+       decode_attrs (ids_all (map unit_of aunits)) (cv_entry_attrs (unit_of au) (ids_all (map unit_of aunits)) e)) /\
+    (forall au e out a id, cv_entry_attrs (unit_of au) mF e = Ok out -> In a out -> In id (ca_refs a) ->
+       exists y, im_src id mF = Some y /\ (is_root (map unit_of aunits) y \/ In y S)).
+Check bounds_rule_exact : forall (dbg : bool) (u : unitd) (ss : list site) (deps : list N),
+  unit_end u <= 2 ^ 64 ->
+  push_sites_refs dbg u ss deps = Ok (deps ++ flat_map (filter_refs u) ss).
+Check oob_refs_add_nothing : forall (dbg : bool) (req : N -> bool) (units : list unitd),
+  wf_offsets units -> wf_layout units ->
+  reserved filter_refs dbg req units = reserved own_refs dbg req units.
+Check split_single_unit : forall rf (dbg : bool) (req : N -> bool) (u : unitd),
+  wf_offsets [u] -> wf_layout [u] ->
+  convert_split_filtered rf dbg req [u] = convert_filtered rf dbg req [u].
